@@ -93,13 +93,13 @@ Record Inv (s : state) : Prop := mkInv { i_core : Jcore None s; i_stab : Stab s;
 
 (* ---------- tactics ---------- *)
 Ltac ds s := destruct s as [grp mem gn ck sd ns nst rn stp sr dc0 rd hbr hbq gs ng sts tms nt nr cs nc ca esc scl td].
-Ltac prj := cbn [is_group member generation coord_known start_d n_start n_stop rejoin_needed stopping stop_requested
+Ltac prj := cbv beta iota zeta delta [is_group member generation coord_known start_d n_start n_stop rejoin_needed stopping stop_requested
                  dc rejoin_d hb_running hb_req gens next_gen stops timers next_timer next_rid consumers next_cid
                  cur_assign escaped stop_called tail_done
                  set_is_group set_member set_generation set_coord_known set_start_d set_n_start set_n_stop
                  set_rejoin_needed set_stopping set_stop_requested set_dc set_rejoin_d set_hb_running set_hb_req
                  set_gens set_next_gen set_stops set_timers set_next_timer set_next_rid set_consumers set_next_cid
-                 set_cur_assign set_escaped set_stop_called set_tail_done fst snd] in *.
+                 set_cur_assign set_escaped set_stop_called set_tail_done fst snd andb negb] in *.
 Ltac unf := repeat progress unfold gen_end, coord_retry, new_timer, remove_timer, add_gen, fresh_rid, seq, emit, emits, upd, skip in *.
 
 Lemma init_inv : forall grp, Inv (init grp).
@@ -235,11 +235,111 @@ Proof.
   destruct dc0 as [|id|].
   3:{ destruct grp; unfold coord_stop, finish_stop; prj; (split; [jgo|split; [intros _; reflexivity|intros; congruence]]). }
   all: destruct hbq as [rid|]; destruct hbr; destruct ck; destruct (mem =? 0) eqn:M;
-       unfold coord_stop, finish_stop, hb_stop, remove_timer; prj; rewrite ?M; cbn [andb negb]; prj.
+       unfold coord_stop, finish_stop, hb_stop, remove_timer; prj; rewrite ?M; prj.
   all: try match goal with |- context [stop_tail ?st0 ?s0] =>
          let X := fresh in assert (X : Jcore r s0) by jgo;
          let Y := fresh in pose proof (stop_tail_J r st0 s0 eq_refl C2 X) as Y;
          destruct (stop_tail st0 s0) as [s3 o4]; prj; destruct Y; split; [|split; [intros _|intros; congruence]]; assumption end.
   all: (split; [|split; [intros _|intros; congruence]]; [jgo|reflexivity]).
+Qed.
+  stopping s' = stopping s /\ rejoin_needed s' = rejoin_needed s /\ hb_running s' = hb_running s.
 
-Time Qed.
+Lemma do_stop_J : forall r idx err s, Jcore r s ->
+  let s' := fst (do_stop idx err s) in
+  Jcore r s' /\
+  (stopping s' = true \/
+   (start_d s = None /\ stopping s = false /\ same_core (set_stop_requested false s) s') \/
+   (is_group s = true /\ consumers s <> [] /\ stop_requested s' = true /\ stab_eq s s')).
+Proof.
+  intros r idx err s H. unfold do_stop.
+  destruct (is_group s) eqn:G.
+  - destruct (consumers (set_stop_requested true s)) as [|c cs'] eqn:C.
+    + assert (J0 : Jcore r (set_stop_requested true s)). { ds s. prj. subst. jgo. }
+      pose proof (coord_stop_J r (mkStop idx err (S2 0)) _ J0 C) as (A & B & D). split; [exact A|].
+      destruct (start_d s) as [i|] eqn:Sd.
+      * left. apply B. left. ds s. prj. congruence.
+      * destruct (stopping s) eqn:Stp.
+        -- left. apply B. right. ds s. exact Stp.
+        -- right. left. repeat split; auto.
+           assert (D' := D (ltac:(ds s; exact Sd)) (ltac:(ds s; exact Stp))).
+           ds s. prj. subst. cbn in D'. exact D'.
+    + unfold begin_shutdown. prj. split.
+      * ds s. prj. subst. jgo.
+      * right. right. ds s. prj. subst. repeat split; auto. discriminate.
+  - pose proof (coord_stop_J r (mkStop idx err (S2 0)) _ H (j1 _ _ H G)) as (A & B & D). split; [exact A|].
+    destruct (start_d s) as [i|] eqn:Sd.
+    * left. apply B. left. congruence.
+    * destruct (stopping s) eqn:Stp.
+      -- left. apply B. right. exact Stp.
+      -- right. left. repeat split; auto. specialize (D eq_refl eq_refl). rewrite G in D.
+         assert (Sr : stop_requested s = false).
+         { destruct (j5 _ _ H Sd) as [X|[X _]]; [congruence|]. unfold pristine in X. intuition. }
+         ds s. prj. subst. exact D.
+Qed.
+
+(* ---------- rejoin_after_error ---------- *)
+Lemma ogl_fields : forall s, let s' := fst (on_group_leave s) in
+  start_d s' = start_d s /\ stopping s' = stopping s /\ stop_requested s' = stop_requested s /\ rejoin_needed s' = rejoin_needed s /\
+  hb_running s' = hb_running s /\ timers s' = timers s /\ gens s' = gens s /\ escaped s' = escaped s /\ dc s' = dc s /\ is_group s' = is_group s.
+Proof. intros s. unfold on_group_leave. destruct (is_group s); ds s; cbn; repeat split; reflexivity. Qed.
+
+Lemma fatal_J : forall r k s, Jcore r s -> start_d s <> None \/ stopping s = true ->
+  Jcore r (fst (fatal k s)) /\ stopping (fst (fatal k s)) = true.
+Proof.
+  intros r k s H Hn. unfold fatal, seq.
+  destruct (on_group_leave s) as [s1 o1] eqn:E.
+  pose proof (ogl_J r s H) as [J1 C1]. pose proof (ogl_fields s) as (F1 & F2 & _). rewrite E in *. cbn [fst] in *.
+  pose proof (do_stop_J r (-1) (Some k) s1 J1) as [J2 Q].
+  destruct (do_stop (-1) (Some k) s1) as [s2 o2]. cbn [fst] in *. split; auto.
+  destruct Q as [Q|[(Q1 & Q2 & _)|(_ & Q & _)]]; auto; [|congruence].
+  rewrite F1 in Q1. rewrite F2 in Q2. destruct Hn; congruence.
+Qed.
+
+Lemma schedule_rejoin_J : forall r d s, stopping s = false -> Jcore r s ->
+  let s' := fst (schedule_rejoin d s) in
+  Jcore r s' /\ rejoin_needed s' = true /\ timers s' <> [] /\ stopping s' = false.
+Proof.
+  intros r d s Hs H. unfold schedule_rejoin. ds s. prj. subst. destruct dc0 as [|id|]; unf; prj.
+  - repeat split; try discriminate. jgo.
+  - repeat split; [jgo|]. destruct H. prj. intros ->. apply (j21 id eq_refl).
+  - destruct H. prj. exfalso. apply j22; auto.
+Qed.
+
+Lemma resched_J : forall r d s, Jcore r s ->
+  let s' := fst (resched d s) in
+  Jcore r s' /\ (stopping s' = true \/ (rejoin_needed s' = true /\ timers s' <> [] /\ stopping s' = false)).
+Proof.
+  intros r d s H. unfold resched. destruct (stopping s) eqn:Hs.
+  - cbn [fst]. auto.
+  - pose proof (schedule_rejoin_J r d s Hs H) as (A & B & C & D). split; auto.
+Qed.
+
+Lemma set_member_J : forall r s, Jcore r s -> consumers s = [] -> Jcore r (set_member 0 s).
+Proof. intros r s H C. ds s. prj. subst. jgo. Qed.
+
+Lemma rejoin_after_error_J : forall r k s, Jcore r s -> start_d s <> None \/ stopping s = true ->
+  let s' := fst (rejoin_after_error k s) in
+  Jcore r s' /\ (stopping s' = true \/ (rejoin_needed s' = true /\ timers s' <> [] /\ stopping s' = false)).
+Proof.
+  intros r k s H Hn.
+  assert (OG : forall d, let s' := fst ((on_group_leave ;; resched d) s) in
+           Jcore r s' /\ (stopping s' = true \/ (rejoin_needed s' = true /\ timers s' <> [] /\ stopping s' = false))).
+  { intros d. unfold seq. destruct (on_group_leave s) as [s1 o1] eqn:E. pose proof (ogl_J r s H) as [J1 _]. rewrite E in J1. cbn [fst] in J1.
+    pose proof (resched_J r d s1 J1) as X. destruct (resched d s1). exact X. }
+  destruct k; cbn [rejoin_after_error].
+  - apply resched_J; auto.
+  - unfold seq, emit. pose proof (resched_J r DRetry s H) as X. destruct (resched DRetry s). exact X.
+  - unfold seq, emit. pose proof (resched_J r DRetry s H) as X. destruct (resched DRetry s). exact X.
+  - apply OG.
+  - unfold seq, upd. destruct (on_group_leave s) as [s1 o1] eqn:E. pose proof (ogl_J r s H) as [J1 C1]. rewrite E in J1, C1. cbn [fst] in J1, C1.
+    pose proof (resched_J r DRetry _ (set_member_J r s1 J1 C1)) as X. destruct (resched DRetry (set_member 0 s1)). exact X.
+  - unfold seq, upd. destruct (on_group_leave s) as [s1 o1] eqn:E. pose proof (ogl_J r s H) as [J1 C1]. rewrite E in J1, C1. cbn [fst] in J1, C1.
+    pose proof (resched_J r DRetry _ (set_member_J r s1 J1 C1)) as X. destruct (resched DRetry (set_member 0 s1)). exact X.
+  - apply resched_J; auto.
+  - unfold seq, emit. destruct (on_group_leave s) as [s1 o1] eqn:E. pose proof (ogl_J r s H) as [J1 _]. rewrite E in J1. cbn [fst] in J1.
+    pose proof (resched_J r DFatal s1 J1) as X. destruct (resched DFatal s1). exact X.
+  - apply resched_J; auto.
+  - destruct (stopping s) eqn:Hs; [cbn [fst]; auto|]. pose proof (fatal_J r KCancelled s H Hn) as [A B]. auto.
+  - pose proof (fatal_J r KNonKafka s H Hn) as [A B]. auto.
+Qed.
+
